@@ -1,0 +1,26 @@
+//! Verification hooks (feature `iggy_verif`, off by default).
+//! A harness-controlled clock for `IggyTimestamp::now()`; disarmed it changes nothing.
+
+use std::sync::atomic::{AtomicU64, Ordering};
+
+/// 0 = disarmed (real clock), otherwise microseconds since the epoch.
+static FROZEN_NOW_MICROS: AtomicU64 = AtomicU64::new(0);
+
+pub fn frozen_now_micros() -> Option<u64> {
+    match FROZEN_NOW_MICROS.load(Ordering::SeqCst) {
+        0 => None,
+        micros => Some(micros),
+    }
+}
+
+pub fn set_frozen_now_micros(micros: u64) {
+    FROZEN_NOW_MICROS.store(micros, Ordering::SeqCst);
+}
+
+pub fn advance_frozen_now_micros(delta: u64) -> u64 {
+    FROZEN_NOW_MICROS.fetch_add(delta, Ordering::SeqCst) + delta
+}
+
+pub fn disarm_frozen_clock() {
+    FROZEN_NOW_MICROS.store(0, Ordering::SeqCst);
+}
